@@ -1,6 +1,6 @@
 (* C14 - streaming KZG: space- and time-efficient provers are interchangeable.  Statements only. *)
 From Coq Require Import List Arith NArith Bool.
-From PC Require Import Base.Field Base.Result Base.Poly Schemes.StreamKZG Proofs.StreamFacts Proofs.StreamMulti.
+From PC Require Import Base.Field Base.Result Base.Poly Schemes.StreamKZG Proofs.StreamFacts Proofs.StreamMulti Proofs.StreamVerifyMulti.
 Import ListNotations.
 Open Scope F_scope.
 
@@ -70,3 +70,24 @@ Theorem C14_space_open_multi_remainder :
     space_open_multi ck p pts = Ok (rem, pi) -> In x pts -> eval_be rem x = eval p x /\ length rem = length pts.
 Proof. exact @space_open_multi_remainder. Qed.
 Print Assumptions C14_space_open_multi_remainder.
+
+(* Lagrange interpolation as coded takes the prescribed values at distinct points ... *)
+Theorem C14_interpolate_at_point :
+  forall (FO : FieldOps) (FL : FieldLaws FO) pts ys i, NoDup pts -> length ys = length pts -> (i < length pts)%nat ->
+    eval (interpolate pts ys) (nth i pts 0) = nth i ys 0.
+Proof. exact @interpolate_at_point. Qed.
+Print Assumptions C14_interpolate_at_point.
+
+(* ... hence verify_multi_points accepts the batched multi-point proof of the time-efficient prover (and, by
+   C14_space_open_multi_eq_time, the proof of the space-efficient prover) for the true evaluations of any number
+   of polynomials at any distinct points, any batching challenge, under the verifier key of the time key *)
+Theorem C14_verify_multi_complete :
+  forall (FO : FieldOps) (FL : FieldLaws FO) D m tau g h ps pts eta vk pi,
+    (1 <= m)%nat -> (m <= D)%nat -> NoDup pts -> pts <> [] -> (length pts <= m)%nat ->
+    Forall (fun p => (length p <= D + 1)%nat) ps ->
+    let ck := sk_new D m tau g h in
+    vk_of_time ck = Ok vk ->
+    time_batch_open_multi ck ps pts eta = Ok pi ->
+    verify_multi vk (map (time_commit ck) ps) pts (map (fun p => map (eval p) pts) ps) pi eta = true.
+Proof. exact @verify_multi_complete. Qed.
+Print Assumptions C14_verify_multi_complete.
